@@ -15,18 +15,22 @@ PROP = dict(
                "MQTT 3 clean); never by a takeover, a late teardown or anything else; C15_never_while_connected - an open "
                "connection is always the registered one; C15_interval_capped - the kept interval never exceeds the server "
                "maximum (CONNECT and DISCONNECT); C15_disconnect_cannot_raise - raising a zero interval is a protocol "
-               "error, the interval stays 0 and the session is gone; C15_nothing_left_partial + "
+               "error, the interval stays 0 and the session is gone; C15_nothing_left + "
                "C15_index_belongs_to_sessions - every topic-index entry belongs to a registered session holding that "
-               "subscription (the clause the pre-fix code violated: C15_prefix_expiry_refuted, "
-               "C15_prefix_disconnect_cap_refuted are the kernel-checked pre-fix witnesses).  Not proved for all "
-               "histories (partial): the behavioural clause 'every delivery is justified by a subscription of the "
-               "current session' and the liveness clauses of the monitor; they are decided on every run by mon15 on "
-               "the real broker's observations and by exact broker/model correspondence.",
+               "subscription, and every PUBLISH forwarded or re-sent to a connection is justified by a subscription made "
+               "by the CURRENT session of its identifier (the monitor forgets an identifier's subscriptions at every "
+               "discard and clean start), so nothing of a discarded session reaches a later connection with the same "
+               "identifier (the clauses the pre-fix code violated: C15_prefix_expiry_refuted, "
+               "C15_prefix_disconnect_cap_refuted are the kernel-checked pre-fix witnesses).  Not proved through the "
+               "monitor for all histories: its timing clauses (V15_when / V15_late / V15_late0 / V15_raise / "
+               "V15_connected) - their content is proved on the model's own states (C15_when, "
+               "C15_never_while_connected, C15_disconnect_cannot_raise) and they are decided on every run by mon15 "
+               "on the real broker's observations and by exact broker/model correspondence.",
     level_note="Trusted: Coq kernel, extraction, OCaml driver, Go broker harness, the verif-tag snapshot of Clients / topic "
                "index / delayed wills.  Modelled not verified: literal topic filters, wall-clock stamps taken from the "
                "second in which the step ran (histories straddling a second boundary are re-run), the persistent store.",
     engines=[dict(hx="life", args=["C15"], model="life15")],
-    theorems=["C15_nothing_left_partial", "C15_index_belongs_to_sessions", "C15_when", "C15_never_while_connected",
+    theorems=["C15_nothing_left", "C15_index_belongs_to_sessions", "C15_when", "C15_never_while_connected",
               "C15_interval_capped", "C15_disconnect_cannot_raise", "C15_prefix_expiry_refuted",
               "C15_prefix_disconnect_cap_refuted"],
     model_files="coq/Session/Lifecycle.v",
